@@ -87,6 +87,11 @@ def scenarios(tier):
                     if tier == "quick" and times == 2 and ai in (0, 5):
                         continue
                     S.append(dict(pre=pre, ai=ai, times=times, rc=False, filt=[], paired=r2))
+    # paired-end --revcomp: a pair may be swapped; the R1 rows then describe the read that came from the R2 file
+    for ai in (0, 2, 4):
+        for times in (1, 2):
+            for r2 in ([], ["-A", "a1=ACGTACGG"]):
+                S.append(dict(pre=[], ai=ai, times=times, rc=True, filt=[], paired=r2))
     return S
 
 
@@ -142,7 +147,7 @@ def run_shard(d):
             rows = [ln.rstrip("\n").split("\t") for ln in fh if ln.strip("\n") != ""]
         res["rows"] += len(rows)
         pre_kinds = _pre_signature(sc["pre"])
-        _judge(V, res, case, rows, recs, byname, sc, pre_kinds)
+        _judge(V, res, case, rows, recs, byname, sc, pre_kinds, mates(recs) if sc.get("paired") is not None else None)
         if not res["samples"] and sc["times"] == 2 and sc["pre"]:
             res["samples"].append(dict(argv=argv, first_rows=rows[:3]))
     clih.rmtree(wd)
@@ -155,7 +160,8 @@ def _pre_signature(pre):
     return "5p" if five else ("3p" if pre else "none")
 
 
-def _judge(V, res, case, rows, recs, byname, sc, pre_kind):
+def _judge(V, res, case, rows, recs, byname, sc, pre_kind, mate_recs=None):
+    mate_of = {r[0]: r for r in mate_recs} if mate_recs else {}
     groups = {}
     order = []
     for row in rows:
@@ -181,8 +187,14 @@ def _judge(V, res, case, rows, recs, byname, sc, pre_kind):
             continue
         rc_flag = g[0][11] if len(g[0]) > 11 else ""
         cur_s, cur_q = seq, qual
-        if rc_flag == "1":
+        swapped = False
+        if rc_flag == "1" and sc.get("paired") is not None:
+            # paired-end: "reverse complementing is done by swapping R1 and R2": the R1 rows describe the read from the R2 file
+            swapped = True
+            cur_s, cur_q = mate_of[name][1], mate_of[name][2]
+        elif rc_flag == "1":
             cur_s, cur_q = refops.revcomp(seq), qual[::-1]
+        nv = len(V)
         if sc["rc"] and rc_flag not in ("0", "1"):
             V.append((f"{sig}:rcflag", "--revcomp given but the reverse-complement column is empty", dict(case, read=name, row=g[0])))
             continue
@@ -224,6 +236,10 @@ def _judge(V, res, case, rows, recs, byname, sc, pre_kind):
                 else:
                     cur_s, cur_q = cur_s[:start], cur_q[:start]
             first = False
+        if swapped and len(V) > nv:
+            # one signature for everything that is wrong with the rows of a swapped pair (see known_findings.txt)
+            last = V.pop()
+            V.append(("paired-revcomp:swapped-row", "paired --revcomp, pair swapped: " + last[1], last[2]))
 
 
 def _alignable(aseq, mid, errors):
